@@ -34,6 +34,17 @@ pub async fn register_account(
 	endpoint: &mut Endpoint,
 	account: &mut BaseAccount,
 ) -> Result<(), Error> {
+	register_account_opt(endpoint, account, true).await
+}
+
+/// `contacts_in_step` must be false when the CA may answer with an account it already
+/// holds whose contacts are not the configured ones: the contacts fingerprint is then
+/// left as it is, so the contacts update is still due if it does not succeed right away.
+pub async fn register_account_opt(
+	endpoint: &mut Endpoint,
+	account: &mut BaseAccount,
+	contacts_in_step: bool,
+) -> Result<(), Error> {
 	account.debug(&format!(
 		"creating account on endpoint \"{}\"...",
 		&endpoint.name
@@ -70,7 +81,9 @@ pub async fn register_account(
 	};
 	account.set_orders_url(&endpoint.name, &orders_url)?;
 	account.update_key_hash(&endpoint.name)?;
-	account.update_contacts_hash(&endpoint.name)?;
+	if contacts_in_step {
+		account.update_contacts_hash(&endpoint.name)?;
+	}
 	account.update_external_account_hash(&endpoint.name)?;
 	account.save().await?;
 	account.info(&format!(
